@@ -28,7 +28,10 @@ def length_contract(S, st, args, dim, esz):
         from fractions import Fraction
         q = l2.frac()
         r = math.isqrt(q.numerator * q.denominator)
-        return Rat(Fraction(r, q.denominator) if r * r == q.numerator * q.denominator else Fraction(math.sqrt(float(q))))
+        if r * r == q.numerator * q.denominator: return Rat(Fraction(r, q.denominator))
+        if getattr(S, 'approx_sqrt', False): return Rat(Fraction(math.sqrt(float(q))))
+        y = S.newreal('len'); st.pc += [y > 0, y * y * q.denominator == q.numerator]; st.wit.append((l2, y))   # irrational: exact algebraic witness
+        return Rat(y)
     y = S.newreal('len')
     st.pc += [y >= 0, y * y * l2.d == l2.n]
     st.wit.append((l2, y))
